@@ -756,6 +756,8 @@ func (en *Env) evalOverlayCall(fobj *types.Func, decl *ast.FuncDecl, n *ast.Call
 		return TV(x.reinterpret(st, en.evalT(n.Args[0]), types.Typ[types.Float64], types.Typ[types.Uint64]))
 	case "isnan":
 		return TV(App("fp.isNaN", SBool, en.evalT(n.Args[0])))
+	case "eqv":
+		return TV(Eq(en.evalT(n.Args[0]), en.evalT(n.Args[1])))
 	case "fsame":
 		return TV(Eq(en.evalT(n.Args[0]), en.evalT(n.Args[1])))
 	case "fst2", "snd2":
@@ -772,15 +774,20 @@ func (en *Env) evalOverlayCall(fobj *types.Func, decl *ast.FuncDecl, n *ast.Call
 	}
 	// ghost (uninterpreted, heap-dependent) function
 	if p := x.eng.ghostPred(fobj); p != nil {
-		var key *Term
-		if len(n.Args) != 1 {
-			unsupportedf("ghost function %s must take one argument", name)
+		if len(n.Args) < 1 || len(n.Args) > 2 {
+			unsupportedf("ghost function %s must take one or two arguments", name)
 		}
-		key = x.svTerm(en.eval(n.Args[0]))
-		rs := w.SortOf(fobj.Type().(*types.Signature).Results().At(0).Type())
+		key := x.svTerm(en.eval(n.Args[0]))
+		sig := fobj.Type().(*types.Signature)
+		rs := w.SortOf(sig.Results().At(0).Type())
 		comp := "GH!" + fobj.Pkg().Name() + "." + name
-		c := x.compOf(en.heap, comp, ArraySort(key.Sort, rs))
-		return TV(Select(c, key))
+		if len(n.Args) == 1 {
+			c := x.compOf(en.heap, comp, ArraySort(key.Sort, rs))
+			return TV(Select(c, key))
+		}
+		k2 := en.coerceArg(x.svTerm(en.eval(n.Args[1])), sig.Params().At(1).Type())
+		c := x.compOf(en.heap, comp, ArraySort(key.Sort, ArraySort(k2.Sort, rs)))
+		return TV(Select(Select(c, key), k2))
 	}
 	// pred: inline the body
 	if decl.Body == nil || len(decl.Body.List) != 1 {
@@ -908,6 +915,11 @@ func (en *Env) modLocsOf(e ast.Expr) []modLoc {
 	case *ast.StarExpr:
 		pv := en.eval(n.X)
 		pt := en.typeOf(n.X).Underlying().(*types.Pointer)
+		if pv.P != nil && pv.P.Ref != nil && pv.P.Elem == nil && len(pv.P.Path) >= 1 && pv.P.Path[0].Index == nil {
+			// pointer to a field of a heap object: the whole field is the location
+			name, _ := x.fieldComp(en.heap, pv.P.Base, pv.P.Path[0].Field)
+			return []modLoc{{name, pv.P.Ref}}
+		}
 		r := x.svTerm(pv)
 		if st, ok := pt.Elem().Underlying().(*types.Struct); ok {
 			var out []modLoc
@@ -926,6 +938,10 @@ func (en *Env) modLocsOf(e ast.Expr) []modLoc {
 	case *ast.CallExpr:
 		if id, ok := n.Fun.(*ast.Ident); ok {
 			switch id.Name {
+			case "allelems":
+				st := en.typeOf(n.Args[0]).Underlying().(*types.Slice)
+				name, _ := x.elemComp(en.heap, st.Elem())
+				return []modLoc{{name, nil}}
 			case "elems":
 				st := en.typeOf(n.Args[0]).Underlying().(*types.Slice)
 				s := en.evalT(n.Args[0])
@@ -941,10 +957,24 @@ func (en *Env) modLocsOf(e ast.Expr) []modLoc {
 			}
 			// ghost function location
 			if fobj, ok := en.info.Uses[id].(*types.Func); ok {
+				if strings.HasSuffix(id.Name, "_row") {
+					if base, ok := fobj.Pkg().Scope().Lookup(strings.TrimSuffix(id.Name, "_row")).(*types.Func); ok && x.eng.ghostPred(base) != nil {
+						key := x.svTerm(en.eval(n.Args[0]))
+						sig := base.Type().(*types.Signature)
+						rs := ArraySort(w.SortOf(sig.Params().At(1).Type()), w.SortOf(sig.Results().At(0).Type()))
+						comp := "GH!" + base.Pkg().Name() + "." + base.Name()
+						x.compOf(en.heap, comp, ArraySort(key.Sort, rs))
+						return []modLoc{{comp, key}}
+					}
+				}
 				if p := x.eng.ghostPred(fobj); p != nil {
 					key := x.svTerm(en.eval(n.Args[0]))
-					rs := w.SortOf(fobj.Type().(*types.Signature).Results().At(0).Type())
+					sig := fobj.Type().(*types.Signature)
+					rs := w.SortOf(sig.Results().At(0).Type())
 					comp := "GH!" + fobj.Pkg().Name() + "." + id.Name
+					if sig.Params().Len() == 2 {
+						rs = ArraySort(w.SortOf(sig.Params().At(1).Type()), rs)
+					}
 					x.compOf(en.heap, comp, ArraySort(key.Sort, rs))
 					return []modLoc{{comp, key}}
 				}
@@ -1007,7 +1037,7 @@ func (e *Engine) staticLocComps(ex ast.Expr, info *types.Info, add func(string))
 	case *ast.CallExpr:
 		if id, ok := n.Fun.(*ast.Ident); ok {
 			switch id.Name {
-			case "elems":
+			case "elems", "allelems":
 				if st, ok := info.Types[n.Args[0]].Type.Underlying().(*types.Slice); ok {
 					add("E!" + typeKey(st.Elem()))
 				}
@@ -1019,7 +1049,7 @@ func (e *Engine) staticLocComps(ex ast.Expr, info *types.Info, add func(string))
 				e.staticLocComps(n.Args[0], info, add)
 			default:
 				if fobj, ok := info.Uses[id].(*types.Func); ok {
-					add("GH!" + fobj.Pkg().Name() + "." + id.Name)
+					add("GH!" + fobj.Pkg().Name() + "." + strings.TrimSuffix(id.Name, "_row"))
 				}
 			}
 		}
